@@ -509,6 +509,25 @@ fn run_c20(args: &Args) -> i32 {
         }
     }
 
+    if exit == 0 {
+        if let Err(detail) = c20::golden::static_matches_heap() {
+            let _ = std::fs::create_dir_all(&replay_dir);
+            let path = replay_dir.join(format!("C20-{seed}-static-vs-heap.json"));
+            let _ = std::fs::write(
+                &path,
+                serde_json::to_string_pretty(&json!({
+                    "property": "C20-static-vs-heap", "clause": "static_vs_heap", "detail": detail,
+                }))
+                .unwrap(),
+            );
+            println!("violated clause: static_vs_heap");
+            println!("detail: {detail}");
+            println!("VIOLATION property=C20 replay={}", path.display());
+            violations += 1;
+            exit = 1;
+            extra = json!({"violation": {"clause": "static_vs_heap", "detail": detail, "replay": path}});
+        }
+    }
     let p = Arc::new(c20::C20);
     let wargs: Vec<String> = vec!["--prop".into(), "c20".into()];
     let mut res = driver::run_batch(p.clone(), &wargs, seed, tier, runs, budget, workers, want_fplog);
@@ -697,6 +716,17 @@ fn run_replay(args: &Args) -> i32 {
                 }
             }
         }
+        "C20-static-vs-heap" => match c20::golden::static_matches_heap() {
+            Ok(()) => {
+                println!("replay of {path}: static and heap zones agree");
+                0
+            }
+            Err(d) => {
+                println!("reproduced: clause=static_vs_heap {d}");
+                println!("VIOLATION property=C20 replay={path}");
+                1
+            }
+        },
         "C20-sweep" => {
             c20::warm_up();
             alloc::enable();
@@ -759,6 +789,10 @@ fn main() {
             let code = run_c20(&args);
             driver::cleanup_scratch();
             code
+        }
+        "c20-golden" => {
+            println!("{}", serde_json::to_string_pretty(&c20::golden::dump()).unwrap());
+            0
         }
         "worker" => run_worker(&args),
         "exec-case" => run_exec_case(&args),
